@@ -7,6 +7,7 @@ import (
 	"go/types"
 	"math/big"
 	"sort"
+	"strings"
 
 	"golang.org/x/tools/go/ssa"
 )
@@ -366,7 +367,7 @@ func PathVersions(fn *ssa.Function) func(at ssa.Value, path string) string {
 	defs := map[string][]def{}
 	root := func(p string) string {
 		for i := 0; i < len(p); i++ {
-			if p[i] == '.' {
+			if p[i] == '.' || p[i] == '[' {
 				return p[:i]
 			}
 		}
@@ -391,7 +392,9 @@ func PathVersions(fn *ssa.Function) func(at ssa.Value, path string) string {
 					args = append([]ssa.Value{cc.Value}, args...)
 				}
 				for _, a := range args {
-					if _, isPtr := a.Type().Underlying().(*types.Pointer); !isPtr {
+					_, isPtr := a.Type().Underlying().(*types.Pointer)
+					_, isSlice := a.Type().Underlying().(*types.Slice)
+					if !isPtr && !isSlice {
 						continue
 					}
 					if p := AccessPath(a); p != "" {
@@ -407,10 +410,21 @@ func PathVersions(fn *ssa.Function) func(at ssa.Value, path string) string {
 		if !ok {
 			return ""
 		}
+		if strings.Contains(path, "[*]") {
+			return "" // an element at a computed index: never a stable quantity
+		}
 		var reaching []def
 		for _, d := range defs[path] {
 			if InstrReaches(d.in, load) {
 				reaching = append(reaching, d)
+			}
+		}
+		// a store through a computed index of the same container may hit this element
+		if i := strings.LastIndex(path, "["); i >= 0 {
+			for _, d := range defs[path[:i]+"[*]"] {
+				if InstrReaches(d.in, load) {
+					return ""
+				}
 			}
 		}
 		for _, d := range escapes {
@@ -453,7 +467,7 @@ func renameAtoms(c Constraint, m map[string]string, prefix string) Constraint {
 // return of g (parameters renamed to the caller's arguments).  A goal holds at `at` if it is
 // entailed by every returned set.
 func FactSets(f *ssa.Function, at *ssa.BasicBlock, isOwn func(*ssa.Function) bool) [][]Constraint {
-	env := &LinEnv{Fn: f}
+	env := &LinEnv{Fn: f, PathVersion: PathVersions(f)}
 	return factSets(f, env.FactsAt(at), func(d *ssa.BasicBlock, idx int) bool { return EdgeDominates(d, idx, at) }, isOwn)
 }
 
@@ -467,7 +481,7 @@ func FactSetsOnEdge(f *ssa.Function, pred *ssa.BasicBlock, succ int, isOwn func(
 }
 
 func factSets(f *ssa.Function, base []Constraint, domEdge func(d *ssa.BasicBlock, idx int) bool, isOwn func(*ssa.Function) bool) [][]Constraint {
-	env := &LinEnv{Fn: f}
+	env := &LinEnv{Fn: f, PathVersion: PathVersions(f)}
 	sets := [][]Constraint{base}
 	for _, d := range f.Blocks {
 		iff := IfOf(d)
@@ -558,7 +572,7 @@ func factSets(f *ssa.Function, base []Constraint, domEdge func(d *ssa.BasicBlock
 
 // EntailedAt: v <= hi (useHi) / v >= lo (useLo) holds in every fact set at `at`.
 func EntailedAt(f *ssa.Function, at *ssa.BasicBlock, v ssa.Value, bound int64, upper bool, isOwn func(*ssa.Function) bool) bool {
-	env := &LinEnv{Fn: f}
+	env := &LinEnv{Fn: f, PathVersion: PathVersions(f)}
 	lv := env.Lin(v)
 	for _, facts := range FactSets(f, at, isOwn) {
 		ok := false
